@@ -132,7 +132,7 @@ WITNESS = dict(n=1, nsteps=1, grid_kind="witness", times=[0.0, 1.0], omega=[[0.0
                pmode="zero", U=[[0.0]], masked=[[0.0]], slm_end=0.0, init=None, kt=1e-10, obs0=True)
 
 
-def classify(case, msg):
+def classify(case, msg, out=None):
     """Narrow witness class of an oracle failure. `krylov-early-accept-weak-drive` iff for some step of
     the run, started from the *exact* state, the real `krylov_exp_impl` (a) returns converged, not by
     happy breakdown, (b) is off by more than the per-step allowance (10·tol + 1e-9)·|v|, and (c) would
@@ -145,6 +145,7 @@ def classify(case, msg):
     from emu_base.math.krylov_exp import krylov_exp_impl
     psi = ic.psi0(case)
     real_me = torch.linalg.matrix_exp
+    hit, pred, exacts = False, [0.0], [psi]
     for dt, H in ic.piecewise(case):
         A = torch.tensor(-1j * dt * H)
         seen, exps = [], []
@@ -173,9 +174,21 @@ def classify(case, msg):
                 err1, err2 = abs(complex(expd[j + 1, 0])), abs(complex(expd[j + 2, 0])) * avnorm
                 est = err1 if err1 < err2 else err1 * err2 / (err1 - err2)
                 if est >= case["kt"]:
-                    return KLASS
+                    hit = True
+        pred.append(pred[-1] + err)
+        exacts.append(exact)
         psi = exact
-    return None
+    if not hit:
+        return None
+    if out is not None and out.get("results") is not None:
+        # the mechanism must also explain the *size* of what was observed (3x the summed per-step errors + allowance)
+        first = 0 if case["obs0"] else 1
+        scale = max(float(np.linalg.norm(exacts[0])), 1.0)
+        for pos, k in enumerate(range(first, len(case["times"]))):
+            v = out["results"].state[pos].data.numpy()
+            if float(np.linalg.norm(v - exacts[k])) > 3.0 * pred[k] + tol_of(k, case["kt"]) * scale:
+                return None
+    return KLASS
 
 
 # ------------------------------------------------------------------ real Pulser sequences through the real adapter
@@ -243,8 +256,10 @@ def run_pulser(case):
         data = list(PulserData(sequence=seq, config=cfg, dt=dt).get_sequences())[0]
         res = compat.run_sv(data, cfg)
         loc = smp.to_nested_dict(all_local=True, samples_type="tensor")["Local"]["ground-rydberg"]
-    if [float(t) for t in data.target_times] != grid:
-        return f"adapter grid {list(data.target_times)} is not the dt-grid {grid}", 0.0
+    # the adapter's grid is the dt-grid up to its own rounding (i*dt/T*T, C21's business: 110.00000000000001)
+    at = [float(t) for t in data.target_times]
+    if len(at) != len(grid) or any(abs(a - b) > 1e-9 * T for a, b in zip(at, grid)):
+        return f"adapter grid {at} is not the dt-grid {grid}", 0.0
     sig = {q: {k: torch.as_tensor(loc[q][k]).real.to(torch.float64).numpy() for k in ("amp", "det", "phase")} for q in ids}
     c6 = float(MockDevice.interaction_coeff)
     U = [[0.0] * n for _ in range(n)]
@@ -373,7 +388,9 @@ def check(rep: Report, tier: str, seed: int) -> None:
                 rep.count("second_runs_same_config")
                 msg2 = (f"second run failed with {out2['status']}" if out2["status"] != "ok" else oracle(case, out2)[0])
                 if msg2:
-                    rep.fail("second run with the same config object: " + msg2, ic.ser_case(case, second_run=True))
+                    rep.fail("second run with the same config object: " + msg2, ic.ser_case(case, second_run=True),
+                             klass=(classify(case, msg2, out2) if out2["status"] == "ok" and out["init_unchanged"] is not False
+                                    and out2["init_unchanged"] is not False else None))
         except Exception as e:  # the real code misbehaving is a finding candidate
             rep.fail(f"real SVBackendImpl raised {type(e).__name__}: {e}", ic.ser_case(case))
             continue
@@ -394,7 +411,7 @@ def check(rep: Report, tier: str, seed: int) -> None:
             continue
         msg, w = oracle(case, out)
         if msg:
-            k = classify(case, msg)
+            k = classify(case, msg, out)
             rep.hist("oracle_failure_class", k)
             rep.fail(msg, ic.ser_case(case), klass=k)
         else:
@@ -404,7 +421,7 @@ def check(rep: Report, tier: str, seed: int) -> None:
     wmsg = oracle(WITNESS, wout)[0] if wout["status"] == "ok" else None
     rep.extra["witness_D20_C01"] = wmsg or "no longer fails (fixed?)"
     if wmsg:
-        rep.fail(wmsg, ic.ser_case(WITNESS), klass=classify(WITNESS, wmsg))
+        rep.fail(wmsg, ic.ser_case(WITNESS), klass=classify(WITNESS, wmsg, wout))
     # real Pulser sequences (rydberg_global + detuning map / SLM mask) through the real adapter
     pworst = 0.0
     for _ in range(10 if tier == "quick" else 200):
